@@ -14,7 +14,7 @@ from translator import frames as tr
 ID = "C06"
 PROPS = "props/C06.v"
 GENERATED = [tr.OUT]
-CASE_DEPS = ["lib/CaseUtil.vo", "model/Frames.vo", "model/Stacked.vo", "lib/StackedCase.vo"]
+CASE_DEPS = ["model/Frames.vo", "model/Stacked.vo", "lib/StackedCase.vo"]
 ALLOWED_AXIOMS = {
     "sig_forall_dec", "sig_not_dec", "functional_extensionality_dep",
     "ClassicalDedekindReals.sig_forall_dec", "ClassicalDedekindReals.sig_not_dec",
@@ -36,7 +36,8 @@ ASSUMPTIONS = [
     "correspondence only",
     "linear_agrees takes the first-order path as a hypothesis (it satisfies every equation with leads read from its "
     "own continuation: C01) and 'the stacked Jacobian is non-singular' as injectivity of the linear part",
-    "single parameter variant; models with a flat (stationary) steady state",
+    "models with a flat (stationary) steady state; parameter variants are simulated and checked one by one, each on its "
+    "own data (the frame loop of a variant is the modelled unit)",
 ]
 
 MANIFEST = {
@@ -132,11 +133,27 @@ def gen_model(rng, kind: str) -> dict:
                 if j == i and s1 == 0:
                     s1 = -1
                 terms.append({"a": round(rng.uniform(0.01, 0.05), 3) * rng.choice([-1, 1]), "f": [(j, s1), (k, s2)]})
+        has_shock = rng.random() < 0.85 or i == 0
+        # the exogenous variable may enter with a lag or a lead DEEPER than any lag/lead of an endogenous variable
+        # (the pre-sample / post-sample columns of the data must then come from it)
+        ws = 0
+        if exo and rng.random() < 0.5:
+            ws = rng.choice([-1, -2, -3, -3, -4] if (backward or rng.random() < 0.6) else [1, 2, 3, 3])
+        # a lagged shock (nonlinear models only: the first-order simulator does not time lagged shocks)
+        sl = None
+        if has_shock and not linear and rng.random() < 0.2:
+            sl = (round(rng.uniform(0.2, 0.6), 2), rng.choice([1, 2, 3, 4]))
         eqs.append({"form": form, "c": c, "rho": rho, "terms": terms, "sq": sq,
-                    "shock": rng.random() < 0.85 or i == 0,
-                    "w": (round(rng.uniform(0.1, 0.5), 2) if exo and (i == 0 or rng.random() < 0.4) else 0.0)})
+                    "shock": has_shock,
+                    "w": (round(rng.uniform(0.1, 0.5), 2) if exo and (i == 0 or rng.random() < 0.4) else 0.0),
+                    "ws": ws, "sl": sl})
+    # parameter variants: the autoregressive coefficients differ across variants
+    nv = rng.choice([1, 1, 1, 2, 2, 3])
+    rho_v = [[e["rho"] for e in eqs]]
+    for _ in range(1, nv):
+        rho_v.append([round(min(0.75, max(0.05, e["rho"] + rng.uniform(-0.1, 0.1))), 2) for e in eqs])
     return {"n": n, "log": log, "exo": exo, "meas": meas, "linear": linear, "backward": backward,
-            "linear_flag": bool(linear and rng.random() < 0.5), "eqs": eqs}
+            "linear_flag": bool(linear and rng.random() < 0.5), "eqs": eqs, "nv": nv, "rho_v": rho_v}
 
 
 def _ref(spec, j, s, logarg=False):
@@ -171,8 +188,10 @@ def model_source(spec) -> str:
             rhs.append(f"({b!r})*{_ref(spec, j, s)}^2")
         if e["shock"]:
             rhs.append(f"e{i}")
+            if e.get("sl"):
+                rhs.append(f"({e['sl'][0]!r})*e{i}{{-{e['sl'][1]}}}")
         if e["w"]:
-            rhs.append(f"({e['w']!r})*w")
+            rhs.append(f"({e['w']!r})*w" + ("" if not e.get("ws") else "{%+d}" % e["ws"]))
         L.append(f"    {lhs} = " + " + ".join(rhs) + ";")
     if spec["meas"]:
         L += ["!measurement-variables", "    ox0", "!measurement-shocks", "    eo0", "!measurement-equations",
@@ -204,12 +223,16 @@ def eval_residual(spec, i, get, t) -> float:
         rhs += b * v(j, s) ** 2
     if e["shock"]:
         rhs += get(f"e{i}", t) + get(f"ant_e{i}", t)
+        if e.get("sl"):
+            a, L = e["sl"]
+            rhs += a * (get(f"e{i}", t - L) + get(f"ant_e{i}", t - L))
     if e["w"]:
-        rhs += e["w"] * get("w", t)
+        rhs += e["w"] * get("w", t + (e.get("ws") or 0))
     return lhs - rhs
 
 
-def model_shifts(spec):
+def model_shifts(spec, endogenous_only=False):
+    """(deepest lag, deepest lead) over the equations, computed from the generated AST, never from the model object"""
     lo, hi = -1, 0
     for e in spec["eqs"]:
         for tm in e["terms"]:
@@ -217,6 +240,11 @@ def model_shifts(spec):
                 lo, hi = min(lo, s), max(hi, s)
         for _, _, s in e["sq"]:
             lo, hi = min(lo, s), max(hi, s)
+        if not endogenous_only:
+            if e["w"] and e.get("ws"):
+                lo, hi = min(lo, e["ws"]), max(hi, e["ws"])
+            if e["shock"] and e.get("sl"):
+                lo = min(lo, -e["sl"][1])
     return lo, hi
 
 
@@ -239,17 +267,24 @@ def build_model(spec):
             for i in range(spec["n"]):
                 if spec["log"][i]:
                     m.assign(**{f"x{i}": 1.0})
+            nv = spec.get("nv", 1)
+            if nv > 1:
+                m.alter_num_variants(nv)
+                m.assign(**{f"rho{i}": [spec["rho_v"][v][i] for v in range(nv)] for i in range(spec["n"])})
             m.steady()
             chk = m.check_steady(when_fails="silent") if hasattr(m, "check_steady") else True
             m.solve()
         lv = m.get_steady_levels()
         ch = m.get_steady_changes()
         for i in range(spec["n"]):
-            x = float(np.ravel(lv[f"x{i}"])[0])
-            c = float(np.ravel(ch[f"x{i}"])[0])
-            flat = abs(c - 1) < 1e-9 if spec["log"][i] else abs(c) < 1e-9
-            if not math.isfinite(x) or abs(x) > 20 or (spec["log"][i] and x <= 0.05) or not flat:
-                m = None          # only models with a moderate, flat steady state are used
+            for v in range(spec.get("nv", 1)):
+                x = float(np.ravel(lv[f"x{i}"])[v])
+                c = float(np.ravel(ch[f"x{i}"])[v])
+                flat = abs(c - 1) < 1e-9 if spec["log"][i] else abs(c) < 1e-9
+                if not math.isfinite(x) or abs(x) > 20 or (spec["log"][i] and x <= 0.05) or not flat:
+                    m = None          # only models with a moderate, flat steady state are used
+                    break
+            if m is None:
                 break
     except Exception:  # noqa  -- a model irispie cannot solve is not a case
         m = None
@@ -263,11 +298,12 @@ def build_model(spec):
 #
 # case = {"spec": ..., "start": serial of the first base period (quarterly), "nper": T,
 #         "method": "stacked_time"|"period_by_period", "terminal": ..., "initial_guess": ...,
-#         "values": {name: {offset: value}}   overrides of the steady databox, offsets relative to start
+#         "values": [ {name: {offset: value}} per parameter variant ]   overrides of the steady databox, offsets relative to start
 #         "plan": [ (register, offset, name) ... ],   "step_tol": None | float }
 
 def gen_case(rng, spec, tier_long=False) -> dict:
     lo, hi = model_shifts(spec)
+    elo, ehi = model_shifts(spec, endogenous_only=True)
     T = rng.randint(1, 12 if tier_long else 9)
     method = "stacked_time"
     if spec["backward"] or rng.random() < 0.12:
@@ -275,39 +311,59 @@ def gen_case(rng, spec, tier_long=False) -> dict:
     if method == "period_by_period":
         T = min(T, 7)
     terminal = rng.choice(["first_order", "first_order", "data"])
+    if ehi <= 0 < hi:
+        # the only lead sits on the exogenous variable: the first-order Terminator of the current code raises
+        # (zip(*()) in Terminator.__init__: no terminal unknowns) before anything is simulated -- not a case
+        terminal = "data"
     ig = rng.choice(["first_order", "data"])
-    values: dict = {}
     n = spec["n"]
+    nv = spec.get("nv", 1)
     shocks = [f"e{i}" for i in range(n) if spec["eqs"][i]["shock"]]
+    w_varies = spec["exo"] and rng.random() < (0.5 if spec["linear"] else 0.9)
 
-    def put(name, off, val):
-        values.setdefault(name, {})[off] = val
-    # unanticipated shocks (-> frames), anticipated shocks
-    for _ in range(rng.choice([0, 1, 1, 2, 3])):
-        put(rng.choice(shocks), rng.randrange(T), round(rng.uniform(0.05, 0.5) * rng.choice([-1, 1]), 3))
-    for _ in range(rng.choice([0, 0, 1, 2])):
-        put("ant_" + rng.choice(shocks), rng.randrange(T), round(rng.uniform(0.05, 0.5) * rng.choice([-1, 1]), 3))
-    if rng.random() < 0.15 and T > 1:            # an explicit zero or NaN shock value is not a break point
-        put(rng.choice(shocks), rng.randrange(1, T), rng.choice([0.0, float("nan"), -0.0]))
-    if spec["exo"] and rng.random() < (0.5 if spec["linear"] else 0.9):
-        for off in range(T):
-            if rng.random() < 0.6:
-                put("w", off, round(rng.uniform(-0.3, 0.3), 3))
-    # initial conditions off the steady state (multiplicative for log variables)
-    for i in range(n):
-        for off in range(lo, 0):
-            if rng.random() < 0.6:
-                put(f"x{i}", off, ("rel", round(rng.uniform(-0.2, 0.2), 3)))
-    # data after the end of the span (read by terminal="data")
-    if rng.random() < 0.4:
+    def draw_values() -> dict:
+        """Overrides of the steady databox for ONE variant (every variant gets its own shock dates and paths)."""
+        values: dict = {}
+
+        def put(name, off, val):
+            values.setdefault(name, {})[off] = val
+        # unanticipated shocks (-> frames), anticipated shocks
+        for _ in range(rng.choice([0, 1, 1, 2, 3])):
+            put(rng.choice(shocks), rng.randrange(T), round(rng.uniform(0.05, 0.5) * rng.choice([-1, 1]), 3))
+        for _ in range(rng.choice([0, 0, 1, 2])):
+            put("ant_" + rng.choice(shocks), rng.randrange(T), round(rng.uniform(0.05, 0.5) * rng.choice([-1, 1]), 3))
+        if rng.random() < 0.15 and T > 1:            # an explicit zero or NaN shock value is not a break point
+            put(rng.choice(shocks), rng.randrange(1, T), rng.choice([0.0, float("nan"), -0.0]))
+        # pre-sample shocks matter when a shock enters with a lag
         for i in range(n):
-            for off in range(T, T + hi):
-                put(f"x{i}", off, ("rel", round(rng.uniform(-0.1, 0.1), 3)))
+            e = spec["eqs"][i]
+            if e["shock"] and e.get("sl"):
+                for off in range(-e["sl"][1], 0):
+                    if rng.random() < 0.7:
+                        put(f"e{i}", off, round(rng.uniform(-0.3, 0.3), 3))
+        if w_varies:
+            # time-varying exogenous path over the whole window the equations can read (pre-sample, span, post-sample)
+            for off in range(lo, T + hi):
+                if rng.random() < 0.8:
+                    put("w", off, round(rng.uniform(-0.3, 0.3), 3))
+        # initial conditions off the steady state (multiplicative for log variables)
+        for i in range(n):
+            for off in range(elo, 0):
+                if rng.random() < 0.6:
+                    put(f"x{i}", off, ("rel", round(rng.uniform(-0.2, 0.2), 3)))
+        # data after the end of the span (read by terminal="data")
+        if rng.random() < 0.4:
+            for i in range(n):
+                for off in range(T, T + ehi):
+                    put(f"x{i}", off, ("rel", round(rng.uniform(-0.1, 0.1), 3)))
+        return values
+
+    vvalues = [draw_values() for _ in range(nv)]
     plan = []
     if rng.random() < 0.3:
         # exactly identified swaps: exogenize x_i at t, endogenize the shock of equation i (at t, or earlier when anticipated)
-        cand = [i for i in range(n) if spec["eqs"][i]["shock"]]
-        for _ in range(rng.choice([1, 1, 2])):
+        cand = [i for i in range(n) if spec["eqs"][i]["shock"] and not spec["eqs"][i].get("sl")]
+        for _ in range(rng.choice([1, 1, 2]) if cand else 0):
             i = rng.choice(cand)
             k = f"e{i}"
             off = rng.randrange(T)
@@ -320,24 +376,29 @@ def gen_case(rng, spec, tier_long=False) -> dict:
                 off2 = off if rng.random() < 0.5 else rng.randrange(0, off + 1)
                 plan.append(("exogenized_anticipated", off, f"x{i}"))
                 plan.append(("endogenized_anticipated", off2, "ant_" + k))
-            put(f"x{i}", off, ("rel", round(rng.uniform(-0.05, 0.05), 3)))
-        # an anticipated swap must live inside one frame: no break point in (off2, off]
+            for values in vvalues:
+                values.setdefault(f"x{i}", {})[off] = ("rel", round(rng.uniform(-0.05, 0.05), 3))
+        # an anticipated swap must live inside one frame (in every variant): no break point in (off2, off]
         for reg, off, name in list(plan):
             if reg != "exogenized_anticipated":
                 continue
             off2 = [p[1] for p in plan if p[0] == "endogenized_anticipated" and p[2] == "ant_e" + name[1:]][0]
-            for sh in shocks:
-                for o in list(values.get(sh, {})):
-                    if off2 < o <= off:
-                        del values[sh][o]
+            for values in vvalues:
+                for sh in shocks:
+                    for o in list(values.get(sh, {})):
+                        if off2 < o <= off:
+                            del values[sh][o]
             plan = [p for p in plan if not (p[0].endswith("_unanticipated") and off2 < p[1] <= off)]
         # unanticipated swaps come in pairs; drop orphans left by the filter above
         ex = {(p[1], p[2][1:]) for p in plan if p[0] == "exogenized_unanticipated"}
         en = {(p[1], p[2][1:]) for p in plan if p[0] == "endogenized_unanticipated"}
         plan = [p for p in plan if not p[0].endswith("_unanticipated") or ((p[1], p[2][1:]) in ex & en)]
     step_tol = rng.choice([None, 1e10, 1e10, 1e10])
+    # non-default output options of simulate, and input series with fewer variants than the model (broadcast)
+    opts = {"remove_terminal": rng.random() < 0.3, "remove_initial": rng.random() < 0.8,
+            "prepend_input": rng.random() < 0.8, "collapse_equal_variants": nv > 1 and rng.random() < 0.4}
     return {"spec": spec, "start": 8000 + rng.randint(0, 40), "nper": T, "method": method, "terminal": terminal,
-            "initial_guess": ig, "values": values, "plan": plan, "step_tol": step_tol}
+            "initial_guess": ig, "values": vvalues, "plan": plan, "step_tol": step_tol, "opts": opts}
 
 
 def _qq(serial):
@@ -347,22 +408,42 @@ def _qq(serial):
 
 
 def make_input(case, m):
-    """Databox.steady over the span plus the overrides of the case; returns (databox, span, plan)."""
+    """Databox.steady over the window the equations can read (computed from the generated AST, not from the model's own
+    max_lag / max_lead) plus the per-variant overrides of the case; returns (databox, span, plan)."""
     import irispie as ir
     spec = case["spec"]
     s0 = case["start"]
     T = case["nper"]
+    nv = spec.get("nv", 1)
+    lo, hi = model_shifts(spec)
     span = ir.Span(_qq(s0), _qq(s0 + T - 1))
-    db = ir.Databox.steady(m, span, deviation=False)
-    for name, cells in case["values"].items():
-        for off, val in cells.items():
-            off = int(off)
-            per = _qq(s0 + off)
+    db = ir.Databox.steady(m, ir.Span(_qq(s0 + lo), _qq(s0 + T - 1 + hi)), deviation=False)
+    cells: dict = {}
+    for v, values in enumerate(case["values"]):
+        for name, cs in values.items():
+            for off, val in cs.items():
+                cells.setdefault((name, int(off)), {})[v] = val
+    for (name, off), per_variant in cells.items():
+        per = _qq(s0 + off)
+        row = [float(x) for x in np.ravel(db[name].get_data(per))]
+        if len(row) < nv:
+            row = row + [row[-1]] * (nv - len(row))
+        for v, val in per_variant.items():
             if isinstance(val, (tuple, list)):
-                base = float(np.ravel(db[name].get_data(per))[0])
+                base = row[v]
                 i = int(name[1:])
                 val = base * (1 + val[1]) if (spec["log"][i] or abs(base) > 0.3) else base + val[1]
-            db[name][per] = float(val)
+            row[v] = float("nan") if val == "nan" else float(val)
+        db[name][per] = row if nv > 1 else row[0]
+    if nv > 1 and case.get("opts", {}).get("collapse_equal_variants"):
+        # a series whose variants are all equal is passed with a single variant (the last variant is repeated)
+        for name in list(db.keys()):
+            x = db[name]
+            if hasattr(x, "data") and hasattr(x, "start") and x.data.shape[1] > 1:
+                d = x.data
+                same = all(np.array_equal(d[:, 0], d[:, k], equal_nan=True) for k in range(1, d.shape[1]))
+                if same and x.start is not None:
+                    db[name] = ir.Series(start=x.start, values=d[:, :1].copy())
     plan = None
     if case["plan"]:
         plan = ir.PlanSimulate(m, span) if hasattr(ir, "PlanSimulate") else ir.SimulationPlan(m, span)
@@ -407,35 +488,31 @@ def run_sim(case, m=None) -> dict:
     if m is None:
         return {"skip": "model cannot be solved"}
     db, span, plan = make_input(case, m)
-    rec: dict = {"frames_rec": [], "create": None}
+    rec: dict = {"variants": {}}
     P = _Patch()
     cur: dict = {}
+    state = {"vid": 0}
+    from irispie.simultaneous import _simulate as sim_mod
+    orig_header = sim_mod._create_simulation_header
 
-    def wrap_create(mod):
-        orig = mod.create_frames
-
-        def create_frames(model_v, dataslate_v, plan_, **kw):
-            frames = orig(model_v, dataslate_v, plan_, **kw)
-            rec["create"] = {
-                "periods": [int(p.serial) for p in dataslate_v.periods],
-                "base_columns": [int(c) for c in dataslate_v.base_columns],
-                "base_periods": [int(p.serial) for p in dataslate_v.base_periods],
-                "names": list(dataslate_v.names),
-                "data": dataslate_v.get_data_variant(0).copy(),
-                "frames": [(int(f.start.serial), int(f.end.serial), int(f.simulation_end.serial), int(f.first),
-                            int(f.last), int(f.simulation_last), int(f.num_simulation_columns),
-                            (f.slice.start, f.slice.stop), (f.simulation_slice.start, f.simulation_slice.stop),
-                            (f.zero_unanticipated_slice.start, f.zero_unanticipated_slice.stop),
-                            type(f).__name__) for f in frames],
-            }
-            return frames
-        P.set(mod, "create_frames", create_frames)
+    def create_simulation_header(vid, frame):
+        state["vid"] = int(vid)          # the variant the frame loop is working on
+        return orig_header(vid, frame)
 
     def wrap_simulate_frame(mod):
         orig = mod.simulate_frame
 
         def simulate_frame(model_v, frame_ds, **kw):
             cur.clear()
+            f = kw["frame"]
+            cur["frame_obs"] = (int(f.start.serial), int(f.end.serial), int(f.simulation_end.serial), int(f.first),
+                                int(f.last), int(f.simulation_last), int(f.num_simulation_columns),
+                                (f.slice.start, f.slice.stop), (f.simulation_slice.start, f.simulation_slice.stop),
+                                (f.zero_unanticipated_slice.start, f.zero_unanticipated_slice.stop), type(f).__name__)
+            cur["periods"] = [int(p.serial) for p in frame_ds.periods]
+            cur["base_columns"] = [int(c) for c in frame_ds.base_columns]
+            cur["base_periods"] = [int(p.serial) for p in frame_ds.base_periods]
+            cur["names"] = list(frame_ds.names)
             cur["pruned"] = frame_ds.get_data_variant(0).copy()
             cur["input_data_array"] = kw["input_data_array"].copy()
             cur["qid_to_logly"] = dict(model_v.create_qid_to_logly())
@@ -539,12 +616,11 @@ def run_sim(case, m=None) -> dict:
         r["main_before"] = before
         r["main_after"] = main_ds.get_data_variant(0).copy()
         r["uqids"] = [int(q) for q in uq]
-        rec["frames_rec"].append(r)
+        rec["variants"].setdefault(state["vid"], []).append(r)
         cur.clear()
 
     try:
-        wrap_create(st_sim)
-        wrap_create(pbp_sim)
+        P.set(sim_mod, "_create_simulation_header", create_simulation_header)
         wrap_simulate_frame(st_sim)
         wrap_simulate_frame(pbp_sim)
         P.set(st_sim, "_get_wrt_spots", get_wrt_spots)
@@ -561,8 +637,12 @@ def run_sim(case, m=None) -> dict:
             kw["terminal"] = case["terminal"]
         try:
             with contextlib.redirect_stdout(io.StringIO()):
+                o = case.get("opts") or {}
                 out, info = m.simulate(db, span, method=case["method"], plan=plan, return_info=True,
-                                       remove_terminal=False, when_fails="silent",
+                                       remove_terminal=bool(o.get("remove_terminal", False)),
+                                       remove_initial=bool(o.get("remove_initial", True)),
+                                       prepend_input=bool(o.get("prepend_input", True)),
+                                       when_fails="silent", unpack_singleton=False,
                                        initial_guess=case["initial_guess"], **kw)
         except Exception as e:  # noqa
             import traceback
@@ -599,6 +679,43 @@ def _val(series, serial) -> float:
     return float(data[k, 0])
 
 
+class _SerView:
+    """One variant of a (possibly multi-variant) Series, seen as a one-variant series by _val."""
+
+    def __init__(self, series, v):
+        self._s = series
+        self._v = v
+
+    @property
+    def start(self):
+        return self._s.start
+
+    @property
+    def end(self):
+        return self._s.end
+
+    @property
+    def data(self):
+        d = self._s.data
+        v = self._v if d.shape[1] > self._v else d.shape[1] - 1
+        return d[:, v:v + 1]
+
+
+class _DbView:
+    """One variant of a databox."""
+
+    def __init__(self, db, v):
+        self._db = db
+        self._v = v
+
+    def keys(self):
+        return self._db.keys()
+
+    def __getitem__(self, name):
+        x = self._db[name]
+        return _SerView(x, self._v) if hasattr(x, "data") and hasattr(x, "start") else x
+
+
 def _same(a: float, b: float) -> bool:
     return (a != a and b != b) or a == b
 
@@ -628,27 +745,66 @@ def fo_continuation(m, spec, get, end, hi, lo):
 
 
 def check_property(case, rec) -> tuple[list[Failure], dict]:
-    """The property on one simulation: residuals of every transition equation in every simulated period of every
+    """The property on one call of simulate: every parameter variant is checked on its own data."""
+    fails: list[Failure] = []
+    stats = {"frames_success": 0, "frames_failed": 0, "residuals": 0, "fo_compared": 0, "max_residual": 0.0,
+             "max_fo_diff": 0.0}
+    nv = case["spec"].get("nv", 1)
+    infos = rec["info"] if isinstance(rec["info"], list) else [rec["info"]]
+    if len(infos) != nv:
+        fails.append(Failure("variants:count", f"simulate returned info for {len(infos)} variants, the model has {nv}",
+                             {"model": model_source(case["spec"])}, len(infos), nv))
+        return fails, stats
+    for v in range(nv):
+        fs, st = _check_variant(case, rec, v, infos[v])
+        fails += fs
+        for k, x in st.items():
+            stats[k] = max(stats[k], x) if k.startswith("max") else stats[k] + x
+    return fails, stats
+
+
+def _first_order_run(case, rec):
+    """First-order simulation (all variants) of the inputs with the shocks as returned; cached in the record."""
+    if "_fo" not in rec:
+        spec = case["spec"]
+        db2 = rec["in_db"].copy()
+        out = rec["out"]
+        for i in range(spec["n"]):               # shocks as returned (endogenized shocks carry their solved values)
+            if spec["eqs"][i]["shock"]:
+                db2[f"e{i}"] = out[f"e{i}"].copy()
+                db2[f"ant_e{i}"] = out[f"ant_e{i}"].copy()
+        try:
+            with contextlib.redirect_stdout(io.StringIO()):
+                rec["_fo"] = rec["model"].simulate(db2, rec["span"], method="first_order", deviation=False)
+        except Exception as e:  # noqa
+            rec["_fo"] = e
+    return rec["_fo"]
+
+
+def _check_variant(case, rec, v, info) -> tuple[list[Failure], dict]:
+    """The property on one variant: residuals of every transition equation in every simulated period of every
     frame that reports success; returned databox assembled from the frames; cells outside the span unchanged;
     measurement variables consistent with their inputs; agreement with first order on linear models."""
     spec = case["spec"]
     n = spec["n"]
+    nv = spec.get("nv", 1)
     fails: list[Failure] = []
     stats = {"frames_success": 0, "frames_failed": 0, "residuals": 0, "fo_compared": 0, "max_residual": 0.0,
              "max_fo_diff": 0.0}
-    out, info, db = rec["out"], rec["info"], rec["in_db"]
-    m = rec["model"]
+    out, db = _DbView(rec["out"], v), _DbView(rec["in_db"], v)
+    m = rec["model"].get_variant(v) if nv > 1 else rec["model"]
     s0, T = case["start"], case["nper"]
     e0 = s0 + T - 1
-    lo, hi = model_shifts(spec)
-    lo = min(lo, -int(-m.max_lag)) if hasattr(m, "max_lag") else lo
+    lo, _hi_all = model_shifts(spec)
+    _elo, hi = model_shifts(spec, endogenous_only=True)
     frames = info["frames"]
     statuses = info["exit_status"]
     fdbs = info["frame_databoxes"]
     shape = f"{case['method']}:{case['terminal'] if case['method'] == 'stacked_time' else 'data'}:" \
             f"{'plan' if case['plan'] else 'noplan'}"
-    inp = {"model": model_source(spec), "case": {k: v for k, v in case.items() if k != "spec"}}
-    params = {f"rho{i}": spec["eqs"][i]["rho"] for i in range(n)}
+    inp = {"model": model_source(spec), "variant": v, "case": {k: x for k, x in case.items() if k != "spec"}}
+    rho_v = spec.get("rho_v") or [[e["rho"] for e in spec["eqs"]]]
+    params = {f"rho{i}": rho_v[v][i] for i in range(n)}
     endogenized = {(reg.endswith("unanticipated"), name, off) for reg, off, name in case["plan"]
                    if reg.startswith("endogenized")}
     exogenized = {(name, off) for reg, off, name in case["plan"] if reg.startswith("exogenized")}
@@ -669,7 +825,7 @@ def check_property(case, rec) -> tuple[list[Failure], dict]:
                 return _val(fdb[name], t)
             return _val(db[name], t)
         cont = None
-        if terminal == "first_order" and hi > 0 and m.max_lead:
+        if terminal == "first_order" and hi > 0:
             try:
                 cont = fo_continuation(m, spec, get_in_frame, e0, hi, lo)
             except Exception as e:  # noqa
@@ -681,7 +837,8 @@ def check_property(case, rec) -> tuple[list[Failure], dict]:
             if t > e0 and cont is not None and name in cont:
                 return cont[name][t]
             return g(name, t)
-        # shocks in force inside the frame: unanticipated values after the first period are pruned
+        # shocks in force inside the frame: on the frame's own periods the unanticipated shocks are THE INPUT shocks of
+        # this variant (a later non-zero input shock must have started a frame of its own), beyond them they are zero
         for i in range(n):
             if not spec["eqs"][i]["shock"]:
                 continue
@@ -689,13 +846,12 @@ def check_property(case, rec) -> tuple[list[Failure], dict]:
                 u = get_in_frame(f"e{i}", t)
                 if (True, f"e{i}", t - s0) in endogenized and t == fs:
                     continue
-                want = _val(db[f"e{i}"], t) if (t == fs or fs == fse) else 0.0
+                want = _val(db[f"e{i}"], t) if t <= fe else 0.0
                 want = 0.0 if want != want else want        # missing shock values fall back to zero
-                if fs == fse and t != fs:
-                    continue
                 if not _same(u, want) and not (u == 0 and want == 0):
-                    fails.append(Failure(f"pruning:{shape}", "unanticipated shock inside a frame is not (input at the first "
-                                         "period, zero afterwards)", dict(inp, frame=k, name=f"e{i}", serial=t), u, want))
+                    fails.append(Failure(f"pruning:{shape}", "unanticipated shock in force inside a frame is not (the input "
+                                         "shock on the frame's own periods, zero afterwards)",
+                                         dict(inp, frame=k, name=f"e{i}", offset=t - s0), u, want))
         # residuals
         worst = (0.0, None)
         for t in range(fs, fse + 1):
@@ -743,7 +899,7 @@ def check_property(case, rec) -> tuple[list[Failure], dict]:
             continue
         b0, b1 = int(db[name].start.serial), int(db[name].end.serial)
         is_log = name.startswith("x") and name[1:].isdigit() and spec["log"][int(name[1:])]
-        for t in list(range(min(a0, b0), s0)) + list(range(e0 + 1, max(a1, b1) + 1)):
+        for t in list(range(a0, s0)) + list(range(e0 + 1, a1 + 1)):
             a, b = _val(ser, t), _val(db[name], t)
             # (log-variables pass through exp(log(.)) when the initial guess is simulated: equal up to rounding)
             if not _same(a, b) and not (is_log and abs(a - b) <= 1e-13 * abs(b)):
@@ -766,27 +922,19 @@ def check_property(case, rec) -> tuple[list[Failure], dict]:
                                      "the simulated transition variables", dict(inp, offset=t - s0), a, [b, c]))
                 break
     # linear models: the result coincides with the first-order simulation of the same inputs
-    has_nan = any(isinstance(v, float) and v != v for cells in case["values"].values() for v in cells.values())
+    values_v = case["values"][v]
+    has_nan = any((isinstance(x, float) and x != x) or x == "nan" for cells in values_v.values() for x in cells.values())
     # (the first-order simulator keeps exogenous variables at their steady values, so time-varying exogenous paths
-    #  are not "the same inputs" for it)
-    # (with a plan and several frames the endogenized anticipated shocks are re-solved in every frame, so the
-    #  returned shocks are not one consistent set of inputs for a single first-order run)
-    fo_applicable = spec["linear"] and all_ok and not has_nan and "w" not in case["values"] and (
+    #  are not "the same inputs" for it; with a plan and several frames the endogenized anticipated shocks are
+    #  re-solved in every frame, so the returned shocks are not one consistent set of inputs for a single first-order run)
+    fo_applicable = spec["linear"] and all_ok and not has_nan and "w" not in values_v and (
         terminal == "first_order" or hi <= 0) and (not case["plan"] or len(frames) == 1)
     if fo_applicable:
-        import irispie as ir
-        db2 = db.copy()
-        for i in range(n):               # shocks as returned (endogenized shocks carry their solved values)
-            if spec["eqs"][i]["shock"]:
-                db2[f"e{i}"] = out[f"e{i}"].copy()
-                db2[f"ant_e{i}"] = out[f"ant_e{i}"].copy()
-        try:
-            with contextlib.redirect_stdout(io.StringIO()):
-                fo = m.simulate(db2, rec["span"], method="first_order", deviation=False)
-        except Exception as e:  # noqa
-            fo = None
-            fails.append(Failure(f"harness:first-order:{shape}", f"first-order simulation raised {type(e).__name__}: {e}", inp))
-        if fo is not None:
+        fo = _first_order_run(case, rec)
+        if isinstance(fo, Exception):
+            fails.append(Failure(f"harness:first-order:{shape}", f"first-order simulation raised {type(fo).__name__}: {fo}", inp))
+        else:
+            fo = _DbView(fo, v)
             stats["fo_compared"] += 1
             worst = (0.0, None)
             for i in range(n):
@@ -798,8 +946,8 @@ def check_property(case, rec) -> tuple[list[Failure], dict]:
             stats["max_fo_diff"] = max(stats["max_fo_diff"], min(worst[0], 1e300))
             if worst[0] > FO_TOL:
                 i, t, a, b = worst[1]
-                fails.append(Failure(f"first-order:{shape}", f"linear model: x{i} at offset {t - s0} differs from the "
-                                     "first-order simulation of the same inputs", dict(inp, name=f"x{i}", offset=t - s0),
+                fails.append(Failure(f"first-order:{shape}", f"linear model, variant {v}: x{i} at offset {t - s0} differs "
+                                     "from the first-order simulation of the same inputs", dict(inp, name=f"x{i}", offset=t - s0),
                                      a, b, "simulate(..., method='stacked_time') vs simulate(..., method='first_order')"))
     return fails, stats
 
@@ -809,7 +957,7 @@ def check_property(case, rec) -> tuple[list[Failure], dict]:
 # =====================================================================================
 
 HEADER = """From Coq Require Import ZArith List Bool PrimFloat.
-From Verif Require Import lib.Arith lib.CaseUtil model.Frames model.Stacked lib.StackedCase.
+From Verif Require Import model.Frames model.Stacked lib.StackedCase.
 Import ListNotations.
 Open Scope Z_scope.
 Set Printing Width 1000000.
@@ -886,16 +1034,16 @@ def _registers(case, names, nbase):
     return out
 
 
-def coq_sim(case, rec, prefix) -> tuple[str, str]:
-    """Returns (definitions text, name of the sim_case)."""
+def coq_sim(case, rec, v, prefix) -> tuple[str, str]:
+    """Variant v of one recorded call of simulate.  Returns (definitions text, name of the sim_case)."""
     D = _Defs(prefix)
-    cr = rec["create"]
-    frs = rec["frames_rec"]
+    frs = rec["variants"][v]
+    cr = frs[0]                      # names / periods / base columns as seen by simulate_frame
     names = cr["names"]
     spec = case["spec"]
     nbase = len(cr["base_periods"])
     uq = frs[0]["uqids"]
-    data0 = cr["data"]
+    data0 = frs[0]["input_data_array"]     # the variant's data when the frames are created
     ucut = "None"
     if uq and cr["base_columns"]:
         ucut = f"(Some {D.arr(data0[uq, :][:, cr['base_columns']])})"
@@ -914,10 +1062,11 @@ def coq_sim(case, rec, prefix) -> tuple[str, str]:
         plan_txt = (f"(Some (mkPlan {R['exogenized_anticipated']} {R['endogenized_anticipated']} "
                     f"{R['exogenized_unanticipated']} {R['endogenized_unanticipated']}))")
     fobs = []
-    for (st, en, se, fi, la, sl, ns, sli, ssl, zsl, _tp) in cr["frames"]:
+    for (st, en, se, fi, la, sl, ns, sli, ssl, zsl, _tp) in [fr["frame_obs"] for fr in frs]:
         fobs.append(f"(mkFrameObs {coq_z(st)} {coq_z(en)} {coq_z(se)} {coq_z(fi)} {coq_z(la)} {coq_z(sl)} {coq_z(ns)} "
                     f"({coq_z(sli[0])}, {_oz(sli[1])}) ({coq_z(ssl[0])}, {_oz(ssl[1])}) ({coq_z(zsl[0])}, {_oz(zsl[1])}))")
     endogenous = [names.index(f"x{i}") for i in range(spec["n"])]
+    lo_, hi_ = model_shifts(spec)            # deepest lag / lead of ANY quantity, from the generated AST
     term = "None"
     t0 = frs[0].get("term")
     if t0 is not None:
@@ -954,18 +1103,19 @@ def coq_sim(case, rec, prefix) -> tuple[str, str]:
                               f"({coq_z(j['shape'][0])}, {coq_z(j['shape'][1])}) {tobs} {pe} {stk}"))
     nm = D.define("sim_case",
                   f"mkSimCase {coq_bool(case['method'] == 'period_by_period')} {_zs(cr['base_periods'])} "
-                  f"{_zs(cr['base_columns'])} {ucut} {pcut} {coq_list(fobs)} {setup} "
+                  f"{_zs(cr['base_columns'])} ({coq_z(lo_)}, {coq_z(hi_)}) {_zs(cr['periods'])} "
+                  f"{ucut} {pcut} {coq_list(fobs)} {setup} "
                   f"{D.arr(frs[0]['main_before'])} {D.define('diff', _diff(frs[0]['main_before'], frs[0]['input_data_array']))} "
                   f"{coq_list(frecs)} {D.define('diff', _diff(frs[0]['main_before'], frs[-1]['main_after']))}")
     return "\n".join(D.lines), nm
 
 
 def shard_text(items) -> str:
-    """items: [(case, rec)]"""
+    """items: [(case, rec, variant)]"""
     parts = [HEADER]
     nms = []
-    for k, (case, rec) in enumerate(items):
-        txt, nm = coq_sim(case, rec, f"s{k}")
+    for k, (case, rec, v) in enumerate(items):
+        txt, nm = coq_sim(case, rec, v, f"s{k}")
         parts.append(txt)
         nms.append(nm)
     parts.append(f"Definition cases : list sim_case := {coq_list(nms)}.")
@@ -973,7 +1123,8 @@ def shard_text(items) -> str:
     return "\n".join(parts) + "\n"
 
 
-CHECK_NAMES = {1: "base_columns", 2: "frames (break points, periods, columns, slices)", 3: "final main array (write-back)",
+CHECK_NAMES = {4: "dataslate periods (pre-sample / post-sample columns for the deepest lag / lead of any quantity)",
+               1: "base_columns", 2: "frames (break points, periods, columns, slices)", 3: "final main array (write-back)",
                10: "columns_to_run", 11: "wrt_spots", 12: "exogenized_spots", 13: "update map", 14: "jacobian lhs tokens",
                15: "jacobian map", 16: "jacobian shape", 17: "stacked residual order", 18: "frame data after simulate_frame (cells outside the unknown / terminal cells changed)",
                30: "pruned frame data",
@@ -997,20 +1148,25 @@ def _jsonable_case(case) -> dict:
 def _restore_case(c) -> dict:
     """Inverse of the JSON round trip of a case (offset keys back to int, "nan" back to NaN)."""
     c = dict(c)
-    vals = {}
-    for name, cells in c["values"].items():
-        vals[name] = {}
-        for off, v in cells.items():
-            if v == "nan":
-                v = float("nan")
-            vals[name][int(off)] = tuple(v) if isinstance(v, list) else v
-    c["values"] = vals
+    vvals = []
+    for values in c["values"]:
+        vals = {}
+        for name, cells in values.items():
+            vals[name] = {}
+            for off, v in cells.items():
+                if v == "nan":
+                    v = float("nan")
+                vals[name][int(off)] = tuple(v) if isinstance(v, list) else v
+        vvals.append(vals)
+    c["values"] = vvals
     c["plan"] = [tuple(p) for p in c["plan"]]
     sp = c["spec"]
     for e in sp["eqs"]:
         for t in e["terms"]:
             t["f"] = [tuple(x) for x in t["f"]]
         e["sq"] = [tuple(x) for x in e["sq"]]
+        if e.get("sl"):
+            e["sl"] = tuple(e["sl"])
     return c
 
 
@@ -1040,7 +1196,7 @@ def correspondence(ctx) -> CorrResult:
     per_model = ctx.scale(5, 6)
     per_shard = 8
     dist = {"method": {}, "terminal": {}, "initial_guess": {}, "kind": {}, "frames": {}, "plan": 0, "log_variables": 0,
-            "status": {}, "simulate_raised": 0, "first_order_compared": 0, "residual_checks": 0,
+            "status": {}, "variants": {}, "deepest_shift_on_exogenous_or_shock": 0, "simulate_raised": 0, "first_order_compared": 0, "residual_checks": 0,
             "max_residual": 0.0, "max_first_order_diff": 0.0}
     keyset = set()
     tol_fail = []
@@ -1050,32 +1206,39 @@ def correspondence(ctx) -> CorrResult:
     def flush():
         if pending:
             texts.append(shard_text(pending))
-            shard_cases.append([_jsonable_case(c) for c, _ in pending])
+            shard_cases.append([dict(_jsonable_case(c), variant=v) for c, _, v in pending])
             pending.clear()
 
     for case, m in gen_batch(rng, n_models, per_model):
         rec = run_sim(case, m)
-        if "error" in rec or "skip" in rec or not rec.get("frames_rec"):
+        if "error" in rec or "skip" in rec or not rec.get("variants"):
             dist["simulate_raised"] += 1
             continue
-        n_items += 1
         spec = case["spec"]
+        variants = sorted(rec["variants"])
+        n_items += len(variants)
+        nframes = max(len(rec["variants"][v]) for v in variants)
+        dist["variants"][str(spec.get("nv", 1))] = dist["variants"].get(str(spec.get("nv", 1)), 0) + 1
+        lo_, hi_ = model_shifts(spec)
+        elo_, ehi_ = model_shifts(spec, endogenous_only=True)
+        dist["deepest_shift_on_exogenous_or_shock"] += (lo_ < elo_ or hi_ > ehi_)
         kind = ("backward_" if spec["backward"] else "") + ("linear" if spec["linear"] else "nonlinear")
         for k, v in (("method", case["method"]), ("terminal", case["terminal"]), ("initial_guess", case["initial_guess"]),
-                     ("kind", kind), ("frames", str(len(rec["frames_rec"])))):
+                     ("kind", kind), ("frames", str(nframes))):
             dist[k][v] = dist[k].get(v, 0) + 1
         dist["plan"] += bool(case["plan"])
         dist["log_variables"] += any(spec["log"])
-        for st in rec["info"]["exit_status"]:
-            dist["status"][str(st)] = dist["status"].get(str(st), 0) + 1
-        if len(rec["frames_rec"]) >= 2 or case["plan"]:
+        for info_v in rec["info"]:
+            for st in info_v["exit_status"]:
+                dist["status"][str(st)] = dist["status"].get(str(st), 0) + 1
+        if nframes >= 2 or case["plan"]:
             keyset.add(repr(_jsonable_case(case)))
         if len(res.samples) < 3:
             res.samples.append({"model": model_source(spec),
                                 "case": {k: v for k, v in _jsonable_case(case).items() if k != "spec"},
-                                "frames": [list(f[:6]) for f in rec["create"]["frames"]],
-                                "wrt_spots_first_frame": rec["frames_rec"][0]["wrt_spots"][:12],
-                                "status": [str(s) for s in rec["info"]["exit_status"]]})
+                                "frames": [[list(fr["frame_obs"][:6]) for fr in rec["variants"][v]] for v in variants],
+                                "wrt_spots_first_frame": rec["variants"][variants[0]][0]["wrt_spots"][:12],
+                                "status": [[str(s) for s in i["exit_status"]] for i in rec["info"]]})
         # tolerance part of the tie: the property residuals and the first-order path
         fails, st = check_property(case, rec)
         dist["first_order_compared"] += st["fo_compared"]
@@ -1085,7 +1248,8 @@ def correspondence(ctx) -> CorrResult:
         for f in fails:
             if len(tol_fail) < 50:
                 tol_fail.append((_jsonable_case(case), f))
-        pending.append((case, rec))
+        for v in variants:
+            pending.append((case, rec, v))
         if len(pending) >= per_shard:
             flush()
     flush()
@@ -1124,7 +1288,8 @@ def correspondence(ctx) -> CorrResult:
             case = sh[i]
             what = "; ".join(f"frame {a}: {CHECK_NAMES.get(int(b), b)}" if int(a) != 999 else CHECK_NAMES.get(int(b), b)
                              for a, b in checks[:6])
-            res.disagreements.append(Disagreement(f"{case['method']}: {what}", case, "model differs on: " + what, None))
+            res.disagreements.append(Disagreement(f"{case['method']}: {what}", case,
+                                                  f"variant {case.get('variant')}: model differs on: " + what, None))
             found += 1
         if not found:
             res.disagreements.append(Disagreement(f"cases shard {k}: unparsed failures", None, body[:600], None))
@@ -1157,7 +1322,7 @@ def falsify(ctx, hints):
 
     def one(case, m=None):
         rec = run_sim(case, m)
-        if "error" in rec or "skip" in rec or not rec.get("frames_rec"):
+        if "error" in rec or "skip" in rec or not rec.get("variants"):
             info["simulate_raised"] += 1
             return
         info["simulations"] += 1
